@@ -406,7 +406,21 @@ func c05tGen(cfg config, emit func(Case)) {
 	}
 }
 
-func c05Inject(role int64, frame string) ([][]byte, int) {
+// injectPanicked is set when the message handler panicked on the last injected frame.
+var injectPanicked string
+
+func c05Inject(role int64, frame string) (frames [][]byte, calls int) {
+	injectPanicked = ""
+	defer func() {
+		if r := recover(); r != nil {
+			injectPanicked = fmt.Sprint(r)
+			frames, calls = nil, 0
+		}
+	}()
+	return c05InjectRaw(role, frame)
+}
+
+func c05InjectRaw(role int64, frame string) ([][]byte, int) {
 	take := func() [][]byte {
 		switch role {
 		case 0:
